@@ -3,6 +3,7 @@ import RxModel.TimedWin
 import RxModel.TimedRate
 import RxModel.TimedShift
 import RxModel.TimedMap
+import RxModel.TimedSim
 open Lean Drv Timed
 
 namespace DrvTimed
@@ -36,6 +37,12 @@ def getSeen (j : Json) (sub : Nat) : Except String (TL Val) := do
   pure (seen (← getStr j "src") sub (← tlOfJson (← getArr j "msgs")))
 
 def both (run spec : TL Val) : Json := Json.mkObj [("run", tlToJson run), ("spec", tlToJson spec)]
+
+/-- also the scheduler simulation (`RxModel/TimedSim.lean`: queue ordered by (due, insertion)) where it applies -/
+def both3 (run spec : TL Val) (sim : Option (TL Val)) : Json :=
+  match sim with
+  | some sm => Json.mkObj [("run", tlToJson run), ("spec", tlToJson spec), ("sim", tlToJson sm)]
+  | none => both run spec
 
 /-- relative/absolute time argument: `{"abs": bool, "at": n}` -/
 def getDue (j : Json) : Except String Due := do
@@ -96,16 +103,20 @@ def handle1 (op : String) (j : Json) : Except String Json := do
   match op with
   | "take_with_time" =>
     let d ← getNat j "d"
-    pure (both (twtRun isCold (sub + d) (sub + d) src) (twtSpec isCold (sub + d) (sub + d) src))
+    pure (both3 (twtRun isCold (sub + d) (sub + d) src) (twtSpec isCold (sub + d) (sub + d) src)
+      (if isCold then none else some (simStart twtOp (fun _ => []) sub (some (sub + d, ())) () src)))
   | "take_until_with_time" =>
     let due := (← getDue j).at sub
-    pure (both (twtRun isCold due (max due sub) src) (twtSpec isCold due (max due sub) src))
+    pure (both3 (twtRun isCold due (max due sub) src) (twtSpec isCold due (max due sub) src)
+      (if isCold then none else some (simStart twtOp (fun _ => []) sub (some (due, ())) () src)))
   | "skip_with_time" =>
     let d ← getNat j "d"
-    pure (both (swtRun isCold (sub + d) false src) (swtSpec isCold (sub + d) src))
+    pure (both3 (swtRun isCold (sub + d) false src) (swtSpec isCold (sub + d) src)
+      (if isCold then none else some (simStart swtOp (fun _ => []) sub (some (sub + d, ())) false src)))
   | "skip_until_with_time" =>
     let due := (← getDue j).at sub
-    pure (both (swtRun false due false src) (swtSpec false due src))
+    pure (both3 (swtRun false due false src) (swtSpec false due src)
+      (some (simStart swtOp (fun _ => []) sub (some (due, ())) false src)))
   | "take_last_with_time" =>
     let d ← getNat j "d"
     pure (both (tlwtRun keepFixed d [] src) (tlwtSpec d src))
@@ -126,15 +137,18 @@ def handle1 (op : String) (j : Json) : Except String Json := do
         pure (fun S => seen kind S om)
       | _ => pure (fun S => [(S, Notif.error "Exception")])
     let s0 := toInit mode sub
-    pure (both (toRun mode isCold other s0 src)
-               (toSpec mode isCold other (mode.at sub) (max (mode.at sub) sub) true src))
+    pure (both3 (toRun mode isCold other s0 src)
+               (toSpec mode isCold other (mode.at sub) (max (mode.at sub) sub) true src)
+               (if isCold then none else some (simStart (toOp mode) other sub
+                  (some (mode.at sub, { due := mode.at sub, fireAt := max (mode.at sub) sub, myId := 0, first := true })) s0 src)))
   -- C16
   | "throttle_first" =>
     let w ← getNat j "d"
-    pure (both (throttleFirst w sub src) (if w = 0 then [(sub, .error "ValueError")] else tfSpec w src))
+    pure (both3 (throttleFirst w sub src) (if w = 0 then [(sub, .error "ValueError")] else tfSpec w src)
+      (if w = 0 then none else some (simStart (tfOp w) (fun _ => []) sub none none src)))
   | "debounce" =>
     let d ← getNat j "d"
-    pure (both (debRun d {} src) (debSpec d src))
+    pure (both3 (debRun d {} src) (debSpec d src) (some (simStart (debOp d) (fun _ => []) sub none {} src)))
   | "sample" =>
     let (ticks, tf) : List (Nat × SampEv) × Bool ←
       match j.getObjVal? "sampler" with
@@ -143,7 +157,8 @@ def handle1 (op : String) (j : Json) : Except String Json := do
         let sk ← getStr oj "src"
         pure (samplerEvents (seen sk sub (← tlOfJson (← getArr oj "msgs"))), isCold && sk == "hot")
       | _ => do pure (intervalTicks sub (← getNat j "period") (← getNat j "stop"), false)
-    pure (both (sampRun tf {} src ticks) (sampSpec tf none src ticks))
+    let q := if tf then mergeStable (sampTickItems ticks ++ sampSrcItems src) else mergeStable (sampSrcItems src ++ sampTickItems ticks)
+    pure (both3 (sampRun tf {} src ticks) (sampSpec tf none src ticks) (some (sampSim q true {})))
   -- C15
   | "timestamp" =>
     let f := fun (l : TL (Val × Nat)) => l.map (fun m => (m.1, m.2.map (fun p => Val.tup [p.1, .int p.2])))
@@ -183,10 +198,10 @@ def handle1 (op : String) (j : Json) : Except String Json := do
       -- a cold source is scheduled when `start()` subscribes it, i.e. after the subscription delay's own messages
       let tr := if isCold then mergeStable (subEv ++ srcEvents inners 0 0 src' ++ elemInners inners 0 src')
                 else mergeStable (srcEvents inners 0 0 src' ++ subEv ++ elemInners inners 0 src')
-      pure (both (dwmRun raises true tr) (dwmRun raises true tr))
+      pure (both (dwmRun raises true tr) (dwmSpec raises true tr))
     | _ =>
       let tr := mergeStable (srcEvents inners 0 0 src ++ elemInners inners 0 src)
-      pure (both (dwmRun raises false tr) (dwmRun raises false tr))
+      pure (both (dwmRun raises false tr) (dwmSpec raises false tr))
   | "timeout_with_mapper" =>
     let inners ← getInners j
     let raises ← getRaises j
@@ -214,8 +229,11 @@ def handle (op : String) (j : Json) : Except String Json := do
   match getOptInt j "sub2" with
   | .ok (some t2) =>
     let r2 ← handle1 op (j.setObjVal! "sub" (.num (JsonNumber.fromInt t2)))
-    pure (Json.mkObj [("run", (← r.getObjVal? "run")), ("spec", (← r.getObjVal? "spec")),
-                      ("run2", (← r2.getObjVal? "run")), ("spec2", (← r2.getObjVal? "spec"))])
+    pure (Json.mkObj ([("run", (← r.getObjVal? "run")), ("spec", (← r.getObjVal? "spec")),
+                      ("run2", (← r2.getObjVal? "run")), ("spec2", (← r2.getObjVal? "spec"))] ++
+                     (match r.getObjVal? "sim", r2.getObjVal? "sim" with
+                      | .ok a, .ok b => [("sim", a), ("sim2", b)]
+                      | _, _ => [])))
   | _ => pure r
 
 end DrvTimed
